@@ -532,3 +532,44 @@ Lemma every_signature_has_a_body :
   forallb (fun sg => match body_of (sg_cls sg) (sg_name sg) with Some _ => true | None => false end)
           all_signatures = true.
 Proof. vm_compute. reflexivity. Qed.
+
+(* what an accepted call hands to the wrapped function *)
+Lemma resolve_shape : forall sg s pos kw e,
+  resolve sg s pos kw = Some e ->
+  existsb (fun kd => is_required (snd kd)) (new_kwargs sg s (List.length pos) kw) = false
+  /\ e_args e = combine (map fst (sg_params sg)) pos ++ strip (new_kwargs sg s (List.length pos) kw)
+  /\ e_varargs e = skipn (List.length (map fst (sg_params sg))) pos.
+Proof.
+  intros sg s pos kw e Hres. unfold resolve in Hres.
+  destruct (existsb (fun kd => is_required (snd kd)) (new_kwargs sg s (List.length pos) kw)) eqn:Hreq;
+    [discriminate|].
+  unfold bind_call in Hres.
+  destruct ((List.length (map fst (sg_params sg)) <? List.length pos)%nat && negb (sg_varargs sg)); [discriminate|].
+  destruct (existsb _ (strip (new_kwargs sg s (List.length pos) kw))); [discriminate|].
+  destruct (negb (sg_varkw sg) && _); [discriminate|].
+  destruct (negb _); [discriminate|].
+  inversion Hres; subst e. simpl. auto.
+Qed.
+
+(* ------------------------------------------------------------------ connection_choice *)
+Theorem mc_connection_choice : forall c x y k,
+  mc_get_connection c x y = Some k -> chip_connection_ok c x y k.
+Proof.
+  intros c x y k H. unfold mc_get_connection in H. unfold chip_connection_ok.
+  destruct (c_width c) as [w|]; [|inversion H; reflexivity].
+  destruct (c_height c) as [h|]; [|inversion H; reflexivity].
+  destruct (c_root c) as [[rx ry]|]; [|inversion H; reflexivity].
+  destruct (as_int x) as [xi|]; [|discriminate].
+  destruct (as_int y) as [yi|]; [|discriminate].
+  destruct (cassoc (c18_local_eth_coord xi yi w h rx ry) (c_conns c)); inversion H; reflexivity.
+Qed.
+
+Theorem bmp_connection_choice : forall c a b d k,
+  bmp_get_connection c a b d = Some k -> bmp_connection_ok c a b d k.
+Proof.
+  intros c a b d k H. unfold bmp_get_connection in H. unfold bmp_connection_ok.
+  destruct (as_int a) as [ci|]; [|discriminate].
+  destruct (as_int b) as [fi|]; [|discriminate].
+  destruct (as_int d) as [bi|]; [|exact H].
+  destruct (kassoc [ci; fi; bi] (c_bmp c)); [inversion H; reflexivity|exact H].
+Qed.
